@@ -27,6 +27,13 @@ pub enum VD {
     Frag(Vec<VD>),
     /// `NoHydrate { children }`: rendered by the server without hydration keys, skipped by the hydrating client
     NoHydrate(Vec<VD>),
+    /// `Keyed(list = LISTS[sig % 6], key = identity, view = li { "k<key>" })`
+    Keyed(usize),
+}
+
+pub const KEYED_LISTS: &[&[u32]] = &[&[], &[1], &[1, 2], &[2, 1], &[1, 2, 3], &[3, 1]];
+pub fn keyed_list(v: u32) -> Vec<u32> {
+    KEYED_LISTS[v as usize % KEYED_LISTS.len()].to_vec()
 }
 
 pub fn dtext_str(v: u32) -> String {
@@ -53,6 +60,7 @@ pub fn sx(v: &VD) -> String {
         VD::Show(g, cs) => format!("(show {g}{})", l(cs)),
         VD::Frag(cs) => format!("(frag{})", l(cs)),
         VD::NoHydrate(cs) => format!("(nohydrate{})", l(cs)),
+        VD::Keyed(g) => format!("(keyed {g})"),
     }
 }
 
@@ -97,6 +105,7 @@ pub fn rd(s: &Sx) -> Option<VD> {
         "dview0" => VD::DView0(num(&l[1])?, l[2..].iter().map(|a| { let Sx::L(a) = a else { return None }; a[1..].iter().map(rd).collect::<Option<Vec<_>>>() }).collect::<Option<_>>()?),
         "show" => VD::Show(num(&l[1])?, l[2..].iter().map(rd).collect::<Option<_>>()?),
         "frag" => VD::Frag(l[1..].iter().map(rd).collect::<Option<_>>()?),
+        "keyed" => VD::Keyed(num(&l[1])?),
         "nohydrate" => VD::NoHydrate(l[1..].iter().map(rd).collect::<Option<_>>()?),
         _ => return None,
     })
@@ -151,6 +160,11 @@ pub fn build(v: &VD, sigs: &[Signal<u32>]) -> View {
             sycamore::rt::component_scope(move || Show(ShowProps::builder().when(move || s.get() % 2 == 1).children(Children::new(move || View::from(cs.iter().map(|c| build(c, &sigs)).collect::<Vec<View>>()))).build()))
         }
         VD::Frag(cs) => View::from(cs.iter().map(|c| build(c, sigs)).collect::<Vec<View>>()),
+        VD::Keyed(g) => {
+            let s = sigs[*g];
+            let list = create_memo(move || keyed_list(s.get()));
+            view! { Keyed(list=list, view=|k: u32| view! { li { (format!("k{k}")) } }, key=|k| *k) }
+        }
         VD::NoHydrate(cs) => {
             let (cs, sigs) = (cs.clone(), sigs.to_vec());
             view! { NoHydrate(children=Children::new(move || View::from(cs.iter().map(|c| build(c, &sigs)).collect::<Vec<View>>()))) }
@@ -178,6 +192,7 @@ pub fn freeze(v: &VD, store: &[u32]) -> VD {
         VD::DView(g, alts) | VD::DView0(g, alts) => if alts.is_empty() { VD::Frag(vec![]) } else { VD::Frag(fl(&alts[store[*g] as usize % alts.len()])) },
         VD::Show(g, cs) => if store[*g] % 2 == 1 { VD::Frag(fl(cs)) } else { VD::Frag(vec![]) },
         VD::Frag(cs) | VD::NoHydrate(cs) => VD::Frag(fl(cs)),
+        VD::Keyed(g) => VD::Frag(keyed_list(store[*g]).iter().map(|k| VD::El("li".into(), vec![], vec![VD::Text(format!("k{k}"))])).collect()),
     }
 }
 /// the view a hydrated document behaves like: `NoHydrate` subtrees frozen at the initial store
